@@ -32,5 +32,13 @@ type Void struct{}
 
 // NewHost creates a new extension host.
 func NewHost() *Host {
-	return &Host{Events: &Events{}}
+	h := &Host{Events: &Events{}}
+
+	// A listener registered under one name for several After-events has one queue for all of
+	// them, so that e.g. it is called for a message being stored before it being deleted.
+	queues := &asyncQueues{}
+	h.Events.AfterMessageDeleted.queues = queues
+	h.Events.AfterMessageStored.queues = queues
+
+	return h
 }
